@@ -158,7 +158,8 @@ def validate_trace(ctx, name, tracefile, module="Trace", timeout=3000):
     rc, out = tlc(d, module, timeout=timeout)
     m = RE_DONE.search(out)
     if not m or int(m.group(1)) != n:
-        raise ToolError("trace validation of %s did not complete (rc=%d):\n%s" % (tracefile, rc, out[-3000:]))
+        errs = [ln for ln in out.splitlines() if ln.startswith("Error:") or "Exception" in ln or "overflow" in ln.lower()][:6]
+        raise ToolError("trace validation of %s did not complete (rc=%d):\n%s\n...\n%s" % (tracefile, rc, "\n".join(errs), out[-1500:]))
     fails = {}
     for c, i in RE_FAIL.findall(out):
         fails.setdefault(int(i), [])
